@@ -84,6 +84,15 @@ HandleMembers(n) ==
   /\ lastop' = [op |-> "deliver-snapshot", n |-> n, ret |-> "-"]
   /\ UNCHANGED <<up, ever, registry, nops>>
 
+(* Cluster.Activate of a kind for which the select function picks a member that never answers (a ghost): the
+   activation request times out, Activate returns nil, and nothing else changes -- the view still is the last snapshot
+   (membership mode; generated as the last operation of a behaviour: it costs a request timeout) *)
+ActivateTimeout(n, k, g) ==
+  /\ Mode = "membership" /\ nops = MaxOps - 1 /\ psnap[n] = <<>>
+  /\ g \in members[n] \cap Ghosts /\ k \in KindsOf[g]
+  /\ nops' = nops + 1 /\ lastop' = [op |-> "activate-timeout", n |-> n, ret |-> "nil"] /\ emitted' = {}
+  /\ UNCHANGED <<up, ever, members, kinds, activated, registry, net, psnap>>
+
 (* ---------------------------------------------------------------- activation-mode operations *)
 HasId(n, id) == \E p \in activated[n] : IdOf(p) = id
 Candidates(n, k) == {m \in members[n] : k \in KindsOf[m]}
@@ -172,6 +181,7 @@ Deliver(s, d) ==
 
 Next == \/ \E n \in Nodes, S \in SUBSET Members, dup \in BOOLEAN : ProviderSnapshot(n, S, dup)
         \/ \E n \in Nodes : HandleMembers(n)
+        \/ \E n \in Nodes, k \in AKinds \cup {"q"}, g \in Ghosts : ActivateTimeout(n, k, g)
         \/ \E n \in Nodes, k \in AKinds, i \in AIds, m \in Members : Activate(n, k, i, m)
         \/ \E n \in Nodes, p \in AllPids : Deactivate(n, p)
         \/ \E n \in Nodes, i \in SpawnIds : ClusterSpawn(n, i)
